@@ -387,13 +387,18 @@ def c06_cases(rng, tier, M):
                                (6, 12, 5), (4, 4, 4), (29, 30, 7), (3, 10, 9), (57, 60, 58)]:
                 for dm, dx, ds in [(0, 0, 0), (-1, 0, 0), (0, 1, 1), (0, w - 1, w - 1), (1, 0, 0), (0, 0, -1)]:
                     grid.append((w, sr, B, (mn * w + dm, mx * w + dx, max(-1, sl * w + ds), w)))
-    # invalid arguments
-    for bad in [(0, 10, 0, 10), (-5, 10, 0, 10), (10, 0, 0, 10), (10, -10, 0, 10), (10, 20, -1, 10), (10, 20, 0, 0), (10, 20, 0, -10)]:
-        grid.append((bad[3], 100, safe_floor(max(bad[3], 1) / U, 100) if bad[3] > 0 else 0, bad))
     rng.shuffle(grid)
     if tier == "quick":
         grid = grid[:700]
-    for w, sr, B, units in grid:
+    # invalid arguments: always included, each under both spellings of the analysis window
+    invalid = []
+    for bad in [(0, 10, 0, 10), (-5, 10, 0, 10), (10, 0, 0, 10), (10, -10, 0, 10), (10, 20, -1, 10), (10, 20, 0, 0), (10, 20, 0, -10),
+                (10, 20, 0, 5), (0, 0, 0, 0), (50, 100, 100, 10), (100, 50, 0, 10),
+                (2000, 50000, 3000, 0), (2000, 50000, 3000, -100), (0, 50000, 3000, 500), (2000, 0, 0, 500)]:      # the last four: durations that would be fine with the DEFAULT window
+        for spell in ("long", "short"):
+            invalid.append((bad[3], 100, safe_floor(max(bad[3], 1) / U, 100) if bad[3] > 0 else 0, bad, spell))
+    for item in invalid + [g + (None,) for g in grid]:
+        w, sr, B, units, forced = item
         if B == 0 and units[3] > 0:
             pass
         flags = (rng.random() < .5, rng.random() < .5)
@@ -417,8 +422,9 @@ def c06_cases(rng, tier, M):
             if len(pat) * B > 60000:
                 continue
             data, n = synth(pat, B, B, sw, ch)
-        ev = run_split(M, data, sr, sw, ch, to_floats(units), flags)
-        traces.append({"c": cfg_of(units, sr, max(B, 1), flags), "ev": ev, "info": f"fmt={sw}x{ch}"})
+        sp = {"analysis_window": forced or rng.choice(["long", "short", "short"]), "sampling_rate": rng.choice(["long", "short"])} if (forced or rej or rng.random() < .3) else None
+        ev = run_split(M, data, sr, sw, ch, to_floats(units), flags, spelling=sp)
+        traces.append({"c": cfg_of(units, sr, max(B, 1), flags), "ev": ev, "info": f"fmt={sw}x{ch} spelling={sp}"})
     return traces
 
 
